@@ -200,7 +200,6 @@ def validate_in_chunks(chk, trace, max_lines=60000):
         total["divs"] += s["divs"]
         off += len(ch)
         if len(chunks) > 1:
-            import os
             os.remove(path)
     total["wall_s"] = round(total["wall_s"], 2)
     return total
